@@ -191,7 +191,8 @@ def step (st : St) : List String → St × String
   | "init" :: toks =>
     match parseCfg toks, parseDt toks with
     | some cfg, some none =>
-      if !cfg.valid then ({}, "bad-config") else
+      -- `WStep` (component 7) needs the DateTimeClock part of the configuration: without it the kit's setup raises
+      if !cfg.valid || cfg.order.contains 7 then ({}, "bad-config") else
       let (s, r) := reply cfg (initPop cfg)
       ({ cfg := some cfg, s := s }, r)
     | some cfg, some (some dt) =>
